@@ -13,6 +13,7 @@ import (
 	"berty.tech/go-ipfs-log/iface"
 	"berty.tech/go-ipfs-log/io/cbor"
 	"github.com/ipfs/go-cid"
+	cbornode "github.com/ipfs/go-ipld-cbor"
 	"github.com/multiformats/go-multibase"
 
 	"verifharness/evid"
@@ -70,7 +71,14 @@ func CheckC18(run *evid.Run) {
 		x := hx.NewExec(h)
 		// record raw bytes at Add time
 		rawAt := map[string][]byte{}
-		x.W.Store.OnAdd = func(c cid.Cid, raw []byte, _ func(cid.Cid) bool) { rawAt[c.KeyString()] = append([]byte(nil), raw...) }
+		var allAdds []cid.Cid
+		x.W.Store.OnAdd = func(c cid.Cid, raw []byte, _ func(cid.Cid) bool) {
+			if _, seen := rawAt[c.KeyString()]; !seen {
+				allAdds = append(allAdds, c)
+			}
+			rawAt[c.KeyString()] = append([]byte(nil), raw...)
+		}
+		x.W.ReuseOptions = true // loaders are called with option values the caller used before (for a log of another codec)
 		var appended []*entry.Entry
 		for k, s := range h.Steps {
 			res := x.Do(k)
@@ -125,6 +133,14 @@ func CheckC18(run *evid.Run) {
 				run.Count("appended_after_restore_"+loader, 1)
 			}
 			break
+		}
+		// the same entries written once more as "pre-signed" blocks (no signature yet): still sealed
+		for k, e := range appended {
+			if k%5 == 0 && len(e.Next)+len(e.Refs) > 0 {
+				if _, err := entry.ToMultihashWithIO(x.W.Ctx, e, x.W.Store.API(), &iface.CreateEntryOptions{PreSigned: true}, x.W.IOv()); err == nil {
+					run.Count("pre_signed_writes", 1)
+				}
+			}
 		}
 		provider := x.W.Idents[0].Provider
 		same := hx.IO(wkey) // a fresh codec instance holding the same key
@@ -191,6 +207,80 @@ func CheckC18(run *evid.Run) {
 			run.NonTrivial(fmt.Sprintf("n%d/r%d/%s/%s", minInt(len(e.Next), 9), len(e.Refs), cl, wkey))
 			if len(links) > 2 && i < 3 {
 				run.Sample(wit())
+			}
+		}
+		// EVERY block this history stored (appends, pre-signed writes, appends after a restore, ...): an entry block
+		// must not expose links, nor contain - in the raw bytes or inside any base64 text field such as the nonce -
+		// an identifier of another entry or a recognisable fragment of one
+		var known []cid.Cid
+		for _, e := range appended {
+			known = append(known, e.Hash)
+		}
+		for _, c := range allAdds {
+			raw := rawAt[c.KeyString()]
+			var g any
+			if c.Type() != cid.DagCBOR || cbornode.DecodeInto(raw, &g) != nil {
+				continue
+			}
+			m, isMap := g.(map[string]any)
+			if !isMap {
+				continue
+			}
+			if _, isManifest := m["heads"]; isManifest {
+				continue
+			}
+			run.Count("stored_entry_blocks_scanned", 1)
+			if node, err := store.Decode(c, raw); err == nil && len(node.Links()) > 0 {
+				run.Violate("C18/traversable-links", det("block", "any stored entry block"), map[string]any{"history": fmt.Sprintf("seed=%d idx=%d", h.Seed, h.Idx), "block": c.String()}, "a stored entry block exposes %d traversable links", len(node.Links()))
+				break
+			}
+			hay := [][]byte{raw}
+			for _, v := range m {
+				if s, ok := v.(string); ok && len(s) >= 16 {
+					if dec, err := base64.StdEncoding.DecodeString(s); err == nil {
+						hay = append(hay, dec)
+					}
+				}
+			}
+			leak := ""
+			for _, k := range known {
+				if k.Equals(c) {
+					continue
+				}
+				txt := k.String()
+				frags := map[string][]byte{"identifier text": []byte(txt), "first 20 characters of the identifier text": []byte(txt[:20]), "characters 8-24 of the identifier text": []byte(txt[8:24]),
+					"first 12 digest bytes": []byte(k.Hash())[2:14]}
+				for name, pat := range frags {
+					for hi, hb := range hay {
+						if bytes.Contains(hb, pat) {
+							leak = fmt.Sprintf("%s of entry %s (in %s)", name, hx.Short(txt), map[bool]string{true: "the raw block", false: "a base64 text field"}[hi == 0])
+						}
+					}
+				}
+			}
+			if leak != "" {
+				run.Violate("C18/link-in-clear", det("form", "fragment"), map[string]any{"history": fmt.Sprintf("seed=%d idx=%d", h.Seed, h.Idx), "block": c.String(), "leak": leak}, "a stored entry block contains the %s", leak)
+				break
+			}
+		}
+		// a same-key reader rebuilds each replica through every loader (with reused option values)
+		for r, l := range x.Logs {
+			if l.Len() == 0 || r%2 == 1 {
+				continue
+			}
+			for _, loader := range hx.Loaders {
+				back, err := x.W.Reload(l, loader, x.Writer[r], nil)
+				if back == nil && err == nil {
+					continue
+				}
+				run.Count("same_key_rebuilds_"+loader, 1)
+				if err != nil || back.Len() != l.Len() {
+					n := -1
+					if back != nil {
+						n = back.Len()
+					}
+					run.Violate("C18/same-key-load", det("loader", loader), histSample(h), "a same-key reader rebuilt %d of %d entries of r%d through the %s loader (err %v)", n, l.Len(), r, loader, err)
+				}
 			}
 		}
 		// same-key reader loads each replica from its heads and merges it into a fresh log
